@@ -22,6 +22,12 @@ def dispatch(prop, tier):
     if prop == "C15":
         from . import sa_check
         return sa_check.check(prop, tier)
+    if prop == "C20":
+        from . import crc_check
+        return crc_check.check(prop, tier)
+    if prop == "C16":
+        from . import nd_check
+        return nd_check.check(prop, tier)
     raise MachineryError("no check for %s" % prop)
 
 
@@ -39,6 +45,12 @@ def main(argv):
             if mod == "StatefulAuto":
                 from . import sa_check
                 return sa_check.replay(argv[1])
+            if mod == "Crc7":
+                from . import crc_check
+                return crc_check.replay(argv[1])
+            if mod == "NotifierDelay":
+                from . import nd_check
+                return nd_check.replay(argv[1])
             raise MachineryError("cannot replay module %s" % mod)
         prop = argv[0]
         tier = argv[1] if len(argv) > 1 else os.environ.get("VERIF_TIER", "quick")
